@@ -77,6 +77,11 @@ def subset_cases(tier):
                 if an and tier == "quick" and (sum(sel) % 3):
                     continue
                 yield {"nn": nn, "levels": list(sel), "footprint": fp, "analytic": an, "prec": "double"}
+    if tier == "quick":
+        # as many levels as the source has columns (6), a few of the 28 selections (all of them in the thorough tier's 4-6 sweep)
+        for sel in itertools.combinations(range(8), 6):
+            if sum(sel) % 5 == 0:
+                yield {"nn": 8, "levels": list(sel), "footprint": False, "analytic": False, "prec": "double"}
 
 
 def case_levels(case):
